@@ -293,6 +293,7 @@ func ruleCondContext(c *Ctx) {
 			{ID: "caller-exists", Doc: "the calling script hash is not the zero hash (entry scripts, verification scripts and verify methods have no caller)", Alts: [][]string{{"type:pkg/util.Uint160", "pkg/vm.(*VM).GetCallingScriptHash"}}},
 		},
 	}})
+	callerComparisonsGuarded(c)
 	pk := c.P.Pkg(txPkg)
 	if pk == nil {
 		c.Lost("anchor", "package transaction not found")
@@ -722,4 +723,66 @@ func depthParamIndex(sig *types.Signature) int {
 		}
 	}
 	return -1
+}
+
+// callerComparisonsGuarded: the VM reports "no calling contract" (entry script, verification script) as the zero
+// script hash. Whoever compares the calling script hash with a hash from the transaction - the caller shortcut of
+// CheckWitness, the CalledByContract condition - has to exclude that value first: otherwise a rule naming the zero
+// hash is "called by" a contract that does not exist (allow CalledByContract(0) holds in the entry script, deny
+// CalledByContract(0) refuses it there; the reference compares with a null caller, which equals no hash).
+func callerComparisonsGuarded(c *Ctx) {
+	n := 0
+	for _, fd := range c.P.AllFuncDecls() {
+		rel := pkgRel(fd.Pkg.Types)
+		if fd.Decl.Body == nil || (rel != txPkg && rel != "pkg/core/interop/runtime") {
+			continue
+		}
+		f := c.P.NewFuncCFG(fd)
+		info := f.Info
+		isCaller := func(e ast.Expr) bool {
+			m := f.Mentions(e, nil)
+			return m["pkg/vm.(*VM).GetCallingScriptHash"] || m["pkg/core/transaction.(MatchContext).GetCallingScriptHash"]
+		}
+		isZero := func(e ast.Expr) bool {
+			cl, ok := ast.Unparen(e).(*ast.CompositeLit)
+			return ok && len(cl.Elts) == 0 && namedTypeIs(info.TypeOf(cl), "pkg/util", "Uint160")
+		}
+		compares, guarded := token.NoPos, false
+		ast.Inspect(fd.Decl.Body, func(x ast.Node) bool {
+			var a, b ast.Expr
+			switch y := x.(type) {
+			case *ast.CallExpr:
+				if sel, ok := y.Fun.(*ast.SelectorExpr); ok && sel.Sel.Name == "Equals" && len(y.Args) == 1 {
+					a, b = sel.X, y.Args[0]
+				}
+			case *ast.BinaryExpr:
+				if y.Op == token.EQL || y.Op == token.NEQ {
+					a, b = y.X, y.Y
+				}
+			}
+			if a == nil || info.TypeOf(a) == nil || !namedTypeIs(info.TypeOf(a), "pkg/util", "Uint160") {
+				return true
+			}
+			switch {
+			case isCaller(a) && isZero(b), isCaller(b) && isZero(a):
+				guarded = true
+			case isCaller(a) || isCaller(b):
+				if !compares.IsValid() {
+					compares = x.Pos()
+				}
+			}
+			return true
+		})
+		if !compares.IsValid() {
+			continue
+		}
+		n++
+		key := "caller-exists." + FuncKey(fd.Obj)
+		if guarded {
+			c.OK(key, c.P.Pos(compares), "the calling script hash is tested against the zero hash where it is compared with a hash from the transaction")
+		} else {
+			c.Fail(key, c.P.Pos(compares), fmt.Sprintf("%s compares the calling script hash with a hash without excluding the zero hash, which the VM uses for \"there is no calling contract\": in the entry script a condition or account equal to the zero hash counts as the caller", FuncKey(fd.Obj)))
+		}
+	}
+	c.Floor("comparisons of the calling script hash", n, 2)
 }
